@@ -7,7 +7,9 @@ import glob
 import multiprocessing as mp
 import os
 import random
+import re
 import signal
+import sys
 
 from common import NCPU, REPO, Driver
 
@@ -205,6 +207,41 @@ def _alarm(_s, _f):
     raise _Timeout()
 
 
+_BIG_COUNT = re.compile(r"\{[^{}]*?(\d{6,})[^{}]*?\}")
+
+
+def has_big_count(text: str) -> bool:
+    """A repetition count of six or more digits: unrolling it (optimizer, or RepeatExact.parse) allocates that many
+    nodes inside C code, which no timer interrupts. Such texts are not loaded with the optimizer in-process; the
+    behaviour is probed once per run in a memory-limited subprocess (huge_count_probe)."""
+    return _BIG_COUNT.search(text) is not None
+
+
+def huge_count_probe() -> str | None:
+    """Known finding C11:unroll-huge-count — is it still there? Runs in a subprocess limited to 1.5 GB / 30 s."""
+    import subprocess
+    code = ("import resource,sys\n"
+            "resource.setrlimit(resource.RLIMIT_AS,(1500*1024*1024,1500*1024*1024))\n"
+            "from pest import Parser\n"
+            "from pest.grammar.exceptions import PestGrammarError\n"
+            "try:\n"
+            "    Parser.from_grammar('a = { \"x\"{99999999} }')\n"
+            "    print('LOADED')\n"
+            "except PestGrammarError:\n"
+            "    print('GERR')\n"
+            "except BaseException as e:\n"
+            "    print('EXC', type(e).__name__)\n")
+    try:
+        r = subprocess.run([sys.executable, "-c", code], capture_output=True, text=True, timeout=30,
+                           env=dict(os.environ))
+        out = (r.stdout or "").strip() or f"DIED rc={r.returncode}"
+    except subprocess.TimeoutExpired:
+        out = "TIMEOUT"
+    if out in ("LOADED", "GERR"):
+        return None
+    return out
+
+
 def load(text: str, optimizer: bool):
     """-> ('OK', parser) | ('GERR', exc) | ('EXC', type name)"""
     from pest import Parser
@@ -237,10 +274,12 @@ def judge_text(text: str, want_c10: bool, want_c11: bool):
     import metaread
     out = []
     r0 = load(text, False)
-    r1 = load(text, True) if want_c11 else None
+    r1 = load(text, True) if (want_c11 and not has_big_count(text)) else None
     # ---- C11: totality and renderable error
     if want_c11:
         for label, r in (("optimizer=None", r0), ("default optimizer", r1)):
+            if r is None:
+                continue
             if r[0] == "EXC":
                 out.append(("C11", f"exc:{r[1]}", f"from_grammar ({label}) raised {r[1]}"))
             elif r[0] == "GERR":
@@ -420,6 +459,8 @@ def texts_for(tier: str, seed: int, prop: str) -> tuple[list[str], dict]:
         for t in bundled:
             step = max(1, len(t) // 40)
             edge += [t[:i] for i in range(0, len(t), step)]
+    from front_edge_cases import EDGES
+    edge += list(EDGES)       # the edge texts the front-end model was developed against (lone surrogates in escapes, ...)
     allt = bundled + valid + muts + soups + edge
     dist = {"generated_valid_candidates": len(valid), "bundled": len(bundled), "mutations": len(muts),
             "token_soups": len(soups), "edge_and_truncations": len(edge)}
@@ -448,7 +489,28 @@ def check(prop: str, tier: str, seed: int):
                                            "replay": {"text": v["text"], "what": v["what"], "signature": v["signature"]}})
     if meta_problem:
         res.tie_breaks.append({"what": meta_problem})
-    res.evaluations = n_total * (2 if want11 else 1)
+    if want11:
+        pr = huge_count_probe()
+        if pr is not None:
+            res.violations.append({
+                "what": "Parser.from_grammar('a = { \"x\"{99999999} }') with the default optimizer does not return: the "
+                        f"unroll pass materialises the repetition ({pr} in a subprocess limited to 1.5 GB / 30 s)",
+                "signature": "C11:unroll-huge-count",
+                "replay": {"text": 'a = { "x"{99999999} }', "what": pr, "signature": "unroll-huge-count"}})
+    # the front-end MODEL (coq/Front.v: scanner, parser, unescape; FrontProof.front_total) vs from_grammar on the
+    # same texts and on the edge texts it was developed against: exact rule tables / error positions
+    import frontmodel
+    from front_edge_cases import EDGES
+    ft = sorted(set(texts) | set(EDGES))
+    parts = [ft[i::NCPU] for i in range(NCPU)]
+    compared = outside = 0
+    with ctx.Pool(NCPU) as pool:
+        for c, o, bad in pool.imap_unordered(frontmodel.tie, parts):
+            compared += c
+            outside += o
+            res.tie_breaks.extend(bad)
+    res.extra["front_model_tie"] = {"texts_compared": compared, "outside_model_recursion_limit": outside}
+    res.evaluations = n_total * (2 if want11 else 1) + compared
     res.distinct_nontrivial = len(set(texts))
     res.extra["distribution"] = dist
     res.rule = ("grammar texts: random grammar ASTs printed with every syntactic form of meta.pest (stacked postfix "
@@ -459,6 +521,8 @@ def check(prop: str, tier: str, seed: int):
                    "tests/grammars/meta.pest + denote)." if want10 else
                    "C11: exception type escaping from_grammar with and without optimizer, str() of the error, and the "
                    "line/column it reports existing in the text.")
+                + " Every text is also run through the extracted front-end model (Front.v) and compared exactly "
+                  "(rule table with modifiers, docs and tags, or error position)."
                 + " distinct_nontrivial = distinct texts.")
     res.samples = [t[:120] for t in texts[20:24]]
     return res
